@@ -37,12 +37,12 @@ SHARD = 200
 
 def corpus():
     return [
-        {"kind": "rl", "dec": "lp", "body": b"", "pol": [4999] * 8},
-        {"kind": "rl", "dec": "lp", "body": b"x" * 10, "pol": [0] * 20},
-        {"kind": "rl", "dec": "ck", "chunks": [], "err": None, "pol": [4999] * 14},
-        {"kind": "rl", "dec": "ck", "chunks": [b""], "err": [b""], "pol": [4999] * 30},
-        {"kind": "rl", "dec": "p3", "client": False, "headers": [], "parts": [], "pol": [4999] * 8},
-        {"kind": "rl", "dec": "p3", "client": True, "headers": [], "parts": [["b", b""]], "pol": [4999] * 40},
+        {"kind": "rl", "dec": "lp", "body": b"", "pol": [0] * 8},
+        {"kind": "rl", "dec": "lp", "body": b"x" * 10, "pol": [1] * 20},
+        {"kind": "rl", "dec": "ck", "chunks": [], "err": None, "pol": [0] * 14},
+        {"kind": "rl", "dec": "ck", "chunks": [b""], "err": [b""], "pol": [0] * 30},
+        {"kind": "rl", "dec": "p3", "client": False, "headers": [], "parts": [], "pol": [0] * 8},
+        {"kind": "rl", "dec": "p3", "client": True, "headers": [], "parts": [["b", b""]], "pol": [0] * 40},
     ]
 
 
@@ -135,7 +135,7 @@ def distribution(inputs, observations):
     for i in inputs:
         k = i["kind"] + ("/" + i["dec"] if i["kind"] == "rl" else "") + ("/v%d" % i["version"] if i["kind"] == "e2e" else "")
         d[k] = d.get(k, 0) + 1
-    d["always_one_byte"] = sum(1 for i in inputs if i["kind"] == "rl" and set(i["pol"]) == {0})
-    d["always_full_hint"] = sum(1 for i in inputs if i["kind"] == "rl" and set(i["pol"]) == {4999})
+    d["always_one_byte"] = sum(1 for i in inputs if i["kind"] == "rl" and set(i["pol"]) == {1})
+    d["always_full_hint"] = sum(1 for i in inputs if i["kind"] == "rl" and set(i["pol"]) == {0})
     d["e2e_short_reads"] = sum(1 for i in inputs if i["kind"] == "e2e" and i.get("short"))
     return d
